@@ -262,6 +262,11 @@ fn start_states() -> Vec<String> {
         // names that differ from the operands only in letter case are different fields
         "a: 1\nc: 2\n",
         "X: 0\na: 1\nA: 2\n\nc: 3\n",
+        // the value starts on a continuation line (empty first line)
+        "A:\n b\nC:\n  c\n d\n",
+        // CR line ends: a bare CR is a line end for the readers, CR-only blank lines separate paragraphs
+        "A: a\r\rB: b\r",
+        "A: a\r\r\rC: c\r\rB: b",
     ];
     let mut v: Vec<String> = texts.iter().map(|t| format!("t.{}", es(t))).collect();
     let docs: Vec<Vec<Vec<(String, String)>>> = vec![
@@ -280,7 +285,7 @@ fn op_pool(nh: usize) -> Vec<String> {
     let mut v = vec![];
     for h in 0..nh {
         for k in ["A", "C"] {
-            for val in ["x", "l1\nl2"] {
+            for val in ["x", "l1\nl2", "#h"] {
                 v.push(format!("set.{}.{}.{}", h, es(k), es(val)));
             }
             v.push(format!("ins.{}.{}.{}", h, es(k), es("y")));
